@@ -126,8 +126,13 @@ def run_drive(binary, script_path, out_path, timeout=120, journal=None, extra=No
         cmd = [os.path.join(BIN, binary), script_path, part, "--journal", journal, "--from", str(start)]
         if extra:
             cmd += extra
+        def limits():
+            # a driver running changed library code may allocate without bound: cap its address space
+            import resource
+            cap = int(os.environ.get("VERIF_DRIVER_MEM_GB", "12")) << 30
+            resource.setrlimit(resource.RLIMIT_AS, (cap, cap))
         try:
-            p = subprocess.run(cmd, stdout=subprocess.PIPE, stderr=subprocess.STDOUT, text=True, timeout=timeout)
+            p = subprocess.run(cmd, stdout=subprocess.PIPE, stderr=subprocess.STDOUT, text=True, timeout=timeout, preexec_fn=limits)
             parts.append(part)
             if p.returncode == 3:
                 # the driver recorded a stalled history (its threads are stuck) and left: continue after it
@@ -254,6 +259,9 @@ def drive_and_validate(name, dictname, histories, spec="Trace_File", driver="dri
         script = {"dict_path": os.path.join(DICTDIR, f"{dictname}.names.json"),
                   "values_path": os.path.join(DICTDIR, "values.json"),
                   "tmpdir": TMP,
+                  # per-history watchdog of the drivers (a hang is data; see harness watchdog)
+                  "hist_limit_ms": 25000 if os.environ.get("VERIF_TIER", "quick") == "quick" else 240000,
+                  "case_limit_ms": 10000,
                   "histories": [h for _, h in items]}
         if extra_script:
             script.update(extra_script)
